@@ -665,3 +665,25 @@ Example mixed2_nonvacuous :
   all_done w = true /\ w_val w = None /\
   map l_resp (w_log w) = [RIncNo 0; RSet true; RInc 72; RShiftM (Some (VI 72))].
 Proof. vm_compute. repeat split; reflexivity. Qed.
+
+(* the final-state clause of the harness: no operation of the alphabet stores a void record, so a
+   serial execution that starts without one never ends with one *)
+Lemma seq_step_not_void s o : s <> Some VV -> o <> OSet VV -> fst (seq_step s o) <> Some VV.
+Proof.
+  intros H Ho. destruct o as [v|d|c cv d|thr| | |cr d| ]; simpl.
+  - destruct v; try discriminate. congruence.
+  - destruct s as [[z|z|]|]; simpl; try discriminate; congruence.
+  - destruct s as [[z|z|]|]; try (destruct (cond_holds c cv _)); simpl; try discriminate; congruence.
+  - destruct (shiftm_match thr s); simpl; [discriminate|exact H].
+  - discriminate.
+  - discriminate.
+  - destruct s as [[z|z|]|]; try destruct cr; simpl; try discriminate; congruence.
+  - exact H.
+Qed.
+
+Lemma seq_run_not_void l : forall s, s <> Some VV -> Forall (fun o => o <> OSet VV) l ->
+  fst (sem_run seq_step s l) <> Some VV.
+Proof.
+  induction l as [|o t IH]; simpl; intros s H Hf; [exact H|].
+  inversion Hf; subst. apply IH; [apply seq_step_not_void; assumption|assumption].
+Qed.
